@@ -231,11 +231,12 @@ PROPS["C02"] = dict(
     rule="balancer histories under virtual time: 5 strategies x pools 1..5 (+admin add/remove), passive ejections by 5xx/502, "
          "windows straddled by +-1 ns gaps, overlapping requests held open by the scripted transports; non-trivial = the pool has "
          ">= 2 backends and at least one is inside its window at a dispatch; distinct = by case hash",
-    level_text="Theorems: the dispatch gate IsBackendHealthy decides exactly 'outside the window'; each of the five strategies returns "
-               "a backend marked eligible whenever the pool has one and 'none' only if none is marked (all pool sizes, counters, "
-               "weights, in-flight vectors, client strings). PARTIAL: the composition with the lazy expiry of the whole pool into "
-               "'503 => every backend inside its window' is monitored on every implementation trace, not yet proved. Tie: same "
-               "histories on the real LoadBalancer; dispatch decisions compared request by request.",
+    level_text="Theorems: in EVERY reachable state (any history of requests, outcomes, time, probes and admin operations) and under every "
+               "strategy, a request is answered 'no healthy backend' only if every pooled backend is inside its unhealthy window at that "
+               "moment (composition of: object identities stay pairwise distinct - an invariant proved over all operations -, the lazy expiry of "
+               "the whole pool makes flag = outside-window, every strategy returns a flagged backend whenever one exists, the gate is exactly the "
+               "window); whatever findHealthyBackend returns is outside its window. Tie: same histories on the real LoadBalancer; dispatch "
+               "decisions compared request by request.",
     level_note=_LB_NOTE, trusted_base=_LB_TRUST,
     assumptions=["virtual time non-decreasing", "pool below 2^31 backends, in-flight counts below 2^31-1"],
 )
